@@ -47,6 +47,7 @@ func getCachedPath(expr string) []string {
 // Stack provides stack-based variable lookup and convenient typed accessors.
 type Stack struct {
 	stack    []map[string]any // bottom..top, top is last element
+	pooled   []bool           // per scope: the map was taken from mapPool by Push(nil) and goes back there
 	rootData any              // original data passed to Render (for struct field fallback)
 }
 
@@ -63,6 +64,7 @@ func NewStackWithData(root map[string]any, originalData any) *Stack {
 		root = map[string]any{}
 	}
 	s.stack = []map[string]any{root}
+	s.pooled = []bool{false}
 	s.rootData = originalData
 	return s
 }
@@ -83,10 +85,12 @@ func (s *Stack) Copy() *Stack {
 // Push a new map as a top-most Stack.
 // If m is nil, an empty map is obtained from the pool.
 func (s *Stack) Push(m map[string]any) {
-	if m == nil {
+	fromPool := m == nil
+	if fromPool {
 		m = mapPool.Get().(map[string]any)
 	}
 	s.stack = append(s.stack, m)
+	s.pooled = append(s.pooled, fromPool)
 }
 
 // Pop the top-most Stack. If only root remains it still pops to empty slice safely.
@@ -98,16 +102,21 @@ func (s *Stack) Pop() {
 	// Return the top map to the pool before removing it
 	topIdx := len(s.stack) - 1
 	topMap := s.stack[topIdx]
-	// Clear the map and return it to pool if it's not the root
-	if topIdx > 0 && len(topMap) > 0 {
+	// Clear the map and return it to the pool if it came from there. A map the caller
+	// handed to Push is the caller's: it is neither emptied nor given to another scope
+	if topIdx > 0 && topIdx < len(s.pooled) && s.pooled[topIdx] && len(topMap) > 0 {
 		for k := range topMap {
 			delete(topMap, k)
 		}
 		mapPool.Put(topMap)
 	}
 	s.stack = s.stack[:topIdx]
+	if topIdx < len(s.pooled) {
+		s.pooled = s.pooled[:topIdx]
+	}
 	if len(s.stack) == 0 {
 		s.stack = append(s.stack, map[string]any{})
+		s.pooled = append(s.pooled[:0], false)
 	}
 }
 
